@@ -330,11 +330,14 @@ Definition ps_norm_comb (w : pweight) (p : expo) (norms : list T) : outcome T :=
                 else match p with PFin k => vmul norms (map (nroot k) a) | PInf => vmul norms a end)
   end.
 
+Definition is_nil {A : Type} (l : list A) : bool := match l with [] => true | _ => false end.
+
 Fixpoint sp_norm (q : quirks) (s : space) (x : elem) {struct s} : outcome T :=
   match s, x with
   | SLeaf lf, ELeaf a => leaf_norm q lf a
   | SProd w p cs, ENode xs =>
-      if is2 p && q_ps2_via_inner q then
+      if is_nil cs && negb (q_ps_empty_raises q) then Ok nzero
+      else if is2 p && q_ps2_via_inner q then
         match cs with
         | [] => if q_ps_empty_raises q then IndexErr else Ok nzero
         | _ => bind (collect2 (sp_inner q) cs xs xs)
@@ -355,6 +358,7 @@ Definition sp_dist (q : quirks) (s : space) (x y : elem) : outcome T :=
   match s, x, y with
   | SLeaf lf, ELeaf a, ELeaf b => leaf_dist q lf a b
   | SProd (PWConst c) p cs, ENode xs, ENode ys =>
+      if is_nil cs && negb (q_ps_empty_raises q) then Ok nzero else
       match esub x y with
       | ENode ds => bind (collect1 (sp_norm q) cs ds) (ps_dist_comb_const c p)
       | _ => ShapeErr
